@@ -581,6 +581,25 @@ import (
 //@   ensures[OPEN]  r1 == nil ==> forall k in [0, bufferNum): using(mulMono(k, bufferNum, capPerBuffer + 20)) ==> slotInit(r0.bufferRegion, k, bufferNum, capPerBuffer)
 //@   ensures[OPEN]  r1 == nil ==> mem8(r0.bufferRegion, (bufferNum - 1) * (capPerBuffer + 20) + 16) == 0
 //@   loop 0 invariant 0 <= i && i <= bufferNum && current == i * (capPerBuffer + 20) && b != nil
+// base case of the free-chain invariant (C01/C02): the ghost chain is built slot by slot, all facts about it are
+// additive (chain[k] + stride <= current), the only product is the existing current == i * stride
+//@   ghost var lastc int = 0 - 1
+//@   at call (*logger).infof#0 ghost[C01,C02] b.held := constarray(false)
+//@   at call (*logger).infof#0 ghost[C01,C02] b.valid := constarray(false)
+//@   at call (*logger).infof#0 ghost[C01,C02] b.cs := 0
+//@   at call (*logger).infof#0 ghost[C01,C02] b.n := bufferNum
+//@   at call (*logger).infof#0 ghost[C01,C02] b.gstride := capPerBuffer + 20
+//@   loop 0 ghost[C01,C02] b.chain[i] := current
+//@   loop 0 ghost[C01,C02] b.pos[current] := i
+//@   loop 0 ghost[C01,C02] b.valid[current] := true
+//@   loop 0 ghost[C01,C02] lastc := current
+//@   loop 0 invariant[C01,C02] b.cs == 0 && b.n == bufferNum && b.gstride == capPerBuffer + 20 && (i >= 1 ==> lastc == b.chain[i - 1] && lastc + b.gstride == current && b.chain[0] == 0) && (i == 0 ==> current == 0)
+//@   loop 0 invariant[C01,C02] forall k in [0, i) trig(b.chain[k]): 0 <= b.chain[k] && b.chain[k] + b.gstride <= current && b.valid[b.chain[k]] && !b.held[b.chain[k]] && b.pos[b.chain[k]] == k
+//@   loop 0 invariant[C01,C02] forall k in [0, i - 1) trig(b.chain[k]): b.chain[k] + b.gstride <= lastc
+//@   loop 0 invariant[C01,C02] forall o in [0, len(b.bufferRegion)) trig(b.valid[o]): b.valid[o] ==> o + b.gstride <= current && 0 <= b.pos[o] && b.pos[o] < i && b.chain[b.pos[o]] == o && !b.held[o]
+//@   loop 0 invariant[C01,C02] (forall o in [0 - 4294967296, 0) trig(b.valid[o]): !b.valid[o]) && (forall o in [len(b.bufferRegion), 8589934592) trig(b.valid[o]): !b.valid[o])
+//@   loop 0 invariant[C01,C02] forall o1 in [0, len(b.bufferRegion)) trig(b.valid[o1]): forall o2 in [0, len(b.bufferRegion)) trig(b.valid[o2]): b.valid[o1] && b.valid[o2] && o1 != o2 ==> o1 + b.gstride <= o2 || o2 + b.gstride <= o1
+//@   ensures[C01,C02] r1 == nil ==> wfGhost(r0)   // base case of the ghost half of the free-chain invariant; the memory half (headers spell out the chain) stays assumed for the fresh list
 //@   loop 0 invariant listGeom(b, mem, offsetInMem, bufferNum, capPerBuffer) && offsetInMem + 36 + bufferNum * (capPerBuffer + 20) < 4294967296 && 0 < capPerBuffer
 //@   loop 0 invariant *b.size == bufferNum && *b.cap == bufferNum && *b.head == 0 && *b.tail == (bufferNum - 1) * (capPerBuffer + 20) && *b.capPerBuffer == capPerBuffer
 //@   loop 0 invariant[OPEN] forall k in [0, i): using(mulMono(k, i, capPerBuffer + 20)) ==> slotInit(b.bufferRegion, k, bufferNum, capPerBuffer)
